@@ -43,6 +43,7 @@ template <class T>
 static Vec3<T> * Vec3_object_constructor1(const object &obj)
 {
     Vec3<T> w;
+    extract<Vec3<T> >       e0(obj);
     extract<Vec3<int> >     e1(obj);
     extract<Vec3<float> >   e2(obj);
     extract<Vec3<double> >  e3(obj);
@@ -50,7 +51,8 @@ static Vec3<T> * Vec3_object_constructor1(const object &obj)
     extract<double>         e5(obj);
     extract<list>           e6(obj);
     
-    if(e1.check())      { w = e1(); }
+    if(e0.check())      { w = e0(); }
+    else if(e1.check()) { w = e1(); }
     else if(e2.check()) { w = e2(); }
     else if(e3.check()) { w = e3(); }
     else if(e4.check())
@@ -766,6 +768,7 @@ template <class T>
 static bool
 equalWithAbsErrorObj(const Vec3<T> &v, const object &obj1, const object &obj2)
 {    
+    extract<Vec3<T> >       e0(obj1);
     extract<Vec3<int> >    e1(obj1);
     extract<Vec3<float> >  e2(obj1);
     extract<Vec3<double> > e3(obj1);
@@ -774,7 +777,8 @@ equalWithAbsErrorObj(const Vec3<T> &v, const object &obj1, const object &obj2)
     extract<double>        e5(obj2);
     
     Vec3<T> w;
-    if(e1.check())      { w = e1(); }
+    if(e0.check())      { w = e0(); }
+    else if(e1.check()) { w = e1(); }
     else if(e2.check()) { w = e2(); }
     else if(e3.check()) { w = e3(); }
     else if(e4.check())
@@ -801,6 +805,7 @@ template <class T>
 static bool
 equalWithRelErrorObj(const Vec3<T> &v, const object &obj1, const object &obj2)
 {    
+    extract<Vec3<T> >       e0(obj1);
     extract<Vec3<int> >    e1(obj1);
     extract<Vec3<float> >  e2(obj1);
     extract<Vec3<double> > e3(obj1);
@@ -809,7 +814,8 @@ equalWithRelErrorObj(const Vec3<T> &v, const object &obj1, const object &obj2)
     extract<double>        e5(obj2);
     
     Vec3<T> w;
-    if(e1.check())      { w = e1(); }
+    if(e0.check())      { w = e0(); }
+    else if(e1.check()) { w = e1(); }
     else if(e2.check()) { w = e2(); }
     else if(e3.check()) { w = e3(); }
     else if(e4.check())
